@@ -266,9 +266,12 @@ CpBuild(p) ==
                   ELSE If1(c, Asg("r", Bin("+", Var("r"), ListN(<<val>>))))),
               Log(IF kind = "set" THEN Compr("set", Var("x"), "x", "values", Var("r"), None) ELSE Var("r"))>>)
 \* <<"mc", c, v>>: map comprehension
-McParams == { <<"mc", c, v>> : c \in Idx(CConds), v \in Idx(ComprVals) }
-McBuild(p) == Prog(<<Log(Compr("map", N("kv", "", Null, <<Var("x"), ComprVals[p[3]]>>), "x", "values",
-                               SetN(<<I(2), I(1), I(3)>>), CConds[p[2]]))>>)
+\* (keys: the element itself, or a key that repeats - x % 2 over [1, 2, 3, 4]: the later element's value wins, as in
+\*  the explicit loop that puts key after key)
+McKeys == << Var("x"), Bin("%", Var("x"), I(2)) >>
+McParams == { <<"mc", c, v, k>> : c \in Idx(CConds), v \in Idx(ComprVals), k \in Idx(McKeys) }
+McBuild(p) == Prog(<<Log(Compr("map", N("kv", "", Null, <<McKeys[p[4]], ComprVals[p[3]]>>), "x", "values",
+                               IF p[4] = 1 THEN SetN(<<I(2), I(1), I(3)>>) ELSE ListN(<<I(1), I(2), I(3), I(4)>>), CConds[p[2]]))>>)
 
 \* <<"c2", form, kind, l1, l2, c, v>>: product and `also for` comprehensions
 C2Forms == << "product", "parallel" >>
@@ -330,6 +333,28 @@ L5Progs == << Prog(<<For(<<"x">>, "values", SetN(<<SB, SC, SA>>), Log(Var("x")))
                      Log(Compr("list", Var("x"), "x", "keys", Var("t"), None)),
                      Log(Compr("list", Var("x"), "x", "values", Var("t"), None)),
                      Log(Compr("map", N("kv", "", Null, <<Var("x"), Bin("*", Var("x"), I(2))>>), "x", "keys", Var("t"), None))>>),
+              \* a loop in the tail position of a function whose body ENDS in `return` (the parser rewrites a
+              \* return that ends a function body into its expression: that must not reach into loop bodies)
+              Prog(<<Def("f", Fn(<<Param("t")>>, Do(<<For(<<"x">>, "values", Var("t"), Do(<<Log(Var("x")), Ret(Var("x"))>>))>>))),
+                     Log(Call(Var("f"), <<Arg(L123)>>)), Log(Call(Var("f"), <<Arg(ListN(<< >>))>>)),
+                     Def("g", Fn(<<Param("n")>>, Do(<<While(Bin(">", Var("n"), I(0)),
+                                                         Do(<<Asg("n", Bin("-", Var("n"), I(1))), Log(Var("n")), Ret(Var("n"))>>))>>))),
+                     Log(Call(Var("g"), <<Arg(I(3))>>)),
+                     Def("h", Fn(<<Param("t")>>, Do(<<For(<<"x">>, "values", Var("t"),
+                                                        IfN(<<Bin("==", Var("x"), I(2))>>, <<Ret(I(20))>>, <<Ret(I(10))>>))>>))),
+                     Log(Call(Var("h"), <<Arg(ListN(<<I(2), I(1)>>))>>))>>),
+              \* three loops deep: continue and break act on the innermost loop only
+              Prog(<<For(<<"x">>, "values", ListN(<<I(1), I(2)>>),
+                         For(<<"y">>, "values", ListN(<<I(1), I(2), I(3)>>),
+                             For(<<"z">>, "values", ListN(<<I(1), I(2), I(3)>>),
+                                 Do(<<If1(Bin("==", Var("z"), I(2)), Cont), If1(Bin("==", Var("y"), I(2)), Brk),
+                                      If1(Bin("==", Bin("+", Var("x"), Var("y")), I(5)), Brk),
+                                      Log(ListN(<<Var("x"), Var("y"), Var("z")>>))>>)))),
+                     Def("f", Fn(<< >>, Do(<<For(<<"x">>, "values", ListN(<<I(1), I(2)>>),
+                                               For(<<"y">>, "values", ListN(<<I(1), I(2)>>),
+                                                   While(Lit(Bool(TRUE)), Do(<<Log(Var("y")), If1(Bin("==", Var("y"), I(2)), Ret(Var("x"))), Brk>>)))),
+                                           I(99)>>))),
+                     Log(Call(Var("f"), << >>))>>),
               Prog(<<For(<<"x">>, "values", SetN(<<I(10), I(9), I(100), I(-5), I(-10), I(2)>>), Log(Var("x"))),
                      Log(Compr("list", Var("x"), "x", "values", SetN(<<I(10), I(9), I(100), I(-5), I(-10), I(2)>>), None)),
                      Log(SetN(<<I(10), I(9), I(100), I(-5), I(-10), I(2)>>))>>) >>
